@@ -40,7 +40,7 @@ def build(I, n, hi):
     model = []
     for k in range(n):
         t = I.int(f"tag{k}", 1, hi)
-        v = I.fstr(f"val{k}", 1)
+        v = I.str(f"val{k}", 0, 1)  # the empty string is a value too
         dup = False
         for (mt, mv) in model:
             if mt == str(t):
@@ -324,7 +324,7 @@ def cells(tier):
     quick = tier == "quick"
     hi = 99 if quick else 9999
     tb = f"symbolic ints in [1,{hi}], spelled as int or decimal string (symbolic choice)"
-    vb = "symbolic 1-char printable strings"
+    vb = "symbolic printable strings of 0..1 chars"
     out = []
     for n in ((1, 2) if quick else (1, 2, 3)):
         out.append(Cell(f"set-get/{n}", (lambda I, n=n: h_set_get(I, n, hi)), dict(entries=n, tags=tb, values=vb,
